@@ -65,6 +65,9 @@ Fixpoint wb_send (ks : list N) (w : wbuf) : bytes * wbuf :=
 
 (* ------------------------------------------------------------------ transport events, BufList, BufRecvStream *)
 
+(* One delivery of the transport.  RecvStream::Buf may be a NON-contiguous Buf; h3 flattens every delivery on
+   entry - BufList::push_bytes and BufRecvStream::poll_data both call copy_to_bytes(remaining()) (generated fact
+   GenBufList.push_bytes_copies_whole_buffer; SimQuic SEG<n> exercises it) - so a delivery is its byte string. *)
 Inductive ev := Chunk (b : bytes) | Fin | Reset (code : N).
 
 Definition bl_remaining (bufs : list bytes) : N := len (concat bufs).
@@ -303,7 +306,7 @@ Inductive route :=
 | RtConnError (code : N)
 | RtSurfaced (session : N) (s : brs)   (* pushed to accepted_streams.wt_uni_streams *)
 | RtDropped                            (* resolved but falls through `_ => ()`: handle dropped, nothing else *)
-| RtStopped (code : N)                 (* unknown type: stop_sending(code) *)
+| RtStopped (code : N)                 (* unknown type (or a refused 0x54 stream, if the code has an arm for it): stop_sending(code) *)
 | RtOther (ty : N)                     (* control / push / QPACK streams: not this property *)
 | RtPanic (site : N).
 
@@ -315,7 +318,10 @@ Definition route_uni (enable_webtransport : bool) (q : list ev) (a : ars) : rout
   | (PtPanic p, q', _) => (RtPanic p, q')
   | (PtReady, q', a') =>
       match into_stream a' with
-      | AcWtUni i s => if gate_open enable_webtransport then (RtSurfaced i s, q') else (RtDropped, q')
+      | AcWtUni i s =>
+          if gate_open enable_webtransport then (RtSurfaced i s, q')
+          else if wt_disabled_stops then (RtStopped wt_disabled_stop_code, q')
+          else (RtDropped, q')
       | AcUnknown => (RtStopped wt_unknown_stop_code, q')
       | AcControl => (RtOther wt_st_control, q')
       | AcPush => (RtOther wt_st_push, q')
